@@ -21,11 +21,13 @@
 (*                "exact" structural walk along the declared URL (repaired AddFlow)        *)
 (*   KF_EndTest   O9: lookupFlow's end-of-URL test is also true when the walk broke at the *)
 (*                last part, and the exact node is skipped when it has a wildcard child    *)
+(*   KF_WildHost  lookupFlow collects a path wildcard also while host labels are consumed   *)
+(*                (h.com/* selected for h.com.evil.net/x)                                   *)
 (*   KF_WildNew   inserting a wildcard always creates a fresh wildcard child (drops the    *)
 (*                flows of an existing one)                                                *)
 EXTENDS FilterP
 
-CONSTANTS KF_NodeReq, LookupMode, KF_EndTest, KF_WildNew
+CONSTANTS KF_NodeReq, LookupMode, KF_EndTest, KF_WildNew, KF_WildHost
 
 PEdge == "{}"
 WEdge == "**"
@@ -125,7 +127,7 @@ Walk(t, ps, i, cur, acc) ==
     IF i > Len(ps) THEN [cur |-> cur, k |-> Len(ps), acc |-> acc]
     ELSE LET part == ps[i]
              wc   == Append(cur, WEdge)
-             acc2 == IF HasVal(t, wc) THEN Append(acc, wc) ELSE acc
+             acc2 == IF HasVal(t, wc) /\ (KF_WildHost \/ ~(part.h /\ t[cur].host /\ ~t[wc].host)) THEN Append(acc, wc) ELSE acc
              cc   == Append(cur, part.v)
              pc   == Append(cur, PEdge)
          IN  IF HasNode(t, cc) /\ t[cc].host = part.h THEN Walk(t, ps, i + 1, cc, acc2)
